@@ -16,6 +16,7 @@ PARAMS = {
     5: "nf 2",
     6: "sf",
     7: "t_ns",
+    9: "u0_undeclared",   # used by the undefined-POI fault
     10: "u10", 11: "u11", 12: "u12", 13: "u13", 14: "u14", 15: "u15",
     21: "v_stat_1", 22: "v_stat_2", 23: "v_stat_3",
 }
